@@ -501,11 +501,47 @@ func (c *Ctx) mergeModel(rule string, f *ssa.Function) *mergeSummary {
 	}
 	var rebuiltFrom []rebuilt
 	nIns, nDel, nRep, nReb := 0, 0, 0, 0
+	countedDel := map[*ssa.Call]bool{}
 	eachInstr(f, func(in ssa.Instruction) {
 		if !L.Blocks[in.Block()] {
 			return
 		}
 		switch t := in.(type) {
+		case *ssa.Call:
+			// a deletion whose result goes straight into the insertion (`insert(removeAt(s, i), v)`), never
+			// into the list variable itself
+			args, isApp := builtinCall(t, "append")
+			if !isApp || len(args) != 2 || countedDel[t] {
+				return
+			}
+			front, ok := x.Origin(args[0]).(*ssa.Slice)
+			if !ok || front.High == nil || front.Low != nil {
+				return
+			}
+			srcCell := x.Cell(front.X)
+			back, ok := x.Origin(args[1]).(*ssa.Slice)
+			if !ok || back.High != nil || back.Low == nil || srcCell == nil || x.Cell(back.X) != srcCell || !isListCell(srcCell) {
+				return
+			}
+			// stored into the list variable: counted there
+			for _, r := range *t.Referrers() {
+				if st, isSt := r.(*ssa.Store); isSt && st.Val == ssa.Value(t) {
+					if cell, _ := x.ResolveAddr(st.Addr).(*ssa.Alloc); cell != nil && isListCell(cell) {
+						return
+					}
+				}
+			}
+			countedDel[t] = true
+			nDel++
+			okD := isIndex(front.High)
+			if bo, ok := x.Origin(back.Low).(*ssa.BinOp); !ok || bo.Op != token.ADD || !isIndex(bo.X) {
+				okD = false
+			} else if k, isKc := constInt(bo.Y); !isKc || k != 1 {
+				okD = false
+			}
+			inPlace := front.Max == nil
+			sum.add("delete at index[v.RuleName] ok=%v in-place-or-stored-back=%v", okD, inPlace)
+			c.Check(rule, fmt.Sprintf("%s#delete%d", key, nDel), okD && inPlace, in.Pos(), "before re-inserting a rule whose salience changed, exactly position IndexMap[v.RuleName] must be removed, from the working list itself (index ok %v; stored back or shifted in place %v)", okD, inPlace)
 		case *ssa.MapUpdate:
 			if x.Cell(t.Map) == mapCell {
 				ok := isK(t.Key) && isV(t.Value)
@@ -558,6 +594,12 @@ func (c *Ctx) mergeModel(rule string, f *ssa.Function) *mergeSummary {
 				srcCell := x.Cell(front.X)
 				// deletion: append(s[:i], s[i+1:]...)
 				if back, ok := x.Origin(args[1]).(*ssa.Slice); ok && back.High == nil && back.Low != nil && x.Cell(back.X) == srcCell {
+					if dc, isCall := t.Val.(*ssa.Call); isCall {
+						if countedDel[dc] {
+							return
+						}
+						countedDel[dc] = true
+					}
 					nDel++
 					okD := isIndex(front.High)
 					if bo, ok := x.Origin(back.Low).(*ssa.BinOp); !ok || bo.Op != token.ADD || !isIndex(bo.X) {
@@ -565,8 +607,12 @@ func (c *Ctx) mergeModel(rule string, f *ssa.Function) *mergeSummary {
 					} else if k, isKc := constInt(bo.Y); !isKc || k != 1 {
 						okD = false
 					}
-					sum.add("delete at index[v.RuleName] ok=%v", okD)
-					c.Check(rule, fmt.Sprintf("%s#delete%d", key, nDel), okD, in.Pos(), "before re-inserting a rule whose salience changed, exactly position IndexMap[v.RuleName] must be removed")
+					// a removal whose result does not go back into the working list itself (it is kept in
+					// a variable of the branch) reaches that list only by shifting inside its backing
+					// array: the head must then be the plain s[:i], not a capped s[:i:i] that makes append copy
+					inPlace := cell == outer || front.Max == nil
+					sum.add("delete at index[v.RuleName] ok=%v in-place-or-stored-back=%v", okD, inPlace)
+					c.Check(rule, fmt.Sprintf("%s#delete%d", key, nDel), okD && inPlace, in.Pos(), "before re-inserting a rule whose salience changed, exactly position IndexMap[v.RuleName] must be removed, from the working list itself (index ok %v; stored back or shifted in place %v)", okD, inPlace)
 					return
 				}
 				// insertion: append(s[:p], append([v], s[p:]...)...)
